@@ -139,7 +139,8 @@ def load_csv(
 
     ## header_is_mandatory
     if header_is_mandatory is None:
-        header_is_mandatory = False
+        # LEGACY: bool contains_header is copied into header_is_mandatory
+        header_is_mandatory = contains_header if isinstance(contains_header, bool) else False
     elif not isinstance(header_is_mandatory, bool):
         raise SyntaxError(f"Not expectable value in header_is_mandatory='{header_is_mandatory}'. Should be bool or None")
 
